@@ -24,7 +24,7 @@ UNIVERSE = [
     "null", "false", "true",
     '""', '"a"', '"\\u0061"', '"A"', '"ab"', '"b"', '"B"', '"aa"', '"a "', '" a"', '"0"', '"1"', '"10"', '"9"', '"é"', '"\\u00e9"', '"e"', '"z"', '"~"',
     '"\\u007f"', '"\\u0080"', '"日本"', '"日"', '"\\ud7ff"', '"\\ue000"', '"\\uffff"', '"a\\u0000"', '"a\\n"', '"\\n"', '"\\t"', '"/"', '"\\/"', '"\\""',
-    "0", "0.0", "1", "1.0", "1e0", "10e-1", "2", "-1", "-1.0", "-2", "0.5", "5e-1", "-0.5", "1.5", "2.5", "10", "9", "100", "1e2", "99.99", "1e-7",
+    "0", "0.0", "-0", "-0.0", "0e0", "-0e3", "1", "1.0", "1e0", "10e-1", "2", "-1", "-1.0", "-2", "0.5", "5e-1", "-0.5", "1.5", "2.5", "10", "9", "100", "1e2", "99.99", "1e-7",
     "-1e-7", "3.141592653589793", "1e300", "-1e300", "5e-324", "1.7976931348623157e308", "9007199254740991", "-9007199254740991", "123456.789",
     "0.1", "0.2", "0.30000000000000004", "1e21", "1.5e20",
     # integers at the ends of the 64-bit ranges (each is a double of its own, so every reading of "numeric order" agrees)
@@ -477,7 +477,7 @@ def worker(ctx):
 def run(env):
     quick = env.tier == "quick"
     stats = core.run_workers(__name__, "worker", PROP, env.tier, env.seed, env.driver, env.hooks_on,
-                             45 if quick else 500, {"units_per_worker": 1500 if quick else 40000})
+                             45 if quick else 500, {"units_per_worker": 6000 if quick else 40000})
     pairs = stats.counters.get("pairs_checked", 0)
     return core.finish(PROP, env.tier, env.seed, LEVEL, stats, env.t0, RULE, min_conclusive=2000 if quick else 20000,
                        exhaustive=bool(pairs), extra_distinct=pairs,
